@@ -642,6 +642,21 @@ func MakePlan(seed int64, k int, quick bool) Plan {
 				}
 				rd.Calls = append(rd.Calls, Call{Height: h, Batch: mode, Cap: cp, Boundary: cl})
 			}
+			if r.Intn(3) == 0 {
+				// Twin requests: two callers with DIFFERENT targets whose
+				// batches cover exactly the same range (forward from the low
+				// end, reverse from the high end, same cap), so that they put
+				// the same getcfilters message on the wire.
+				cp := int64(2 + r.Intn(60))
+				lo := b
+				if lo < 1 {
+					lo = 1
+				}
+				if hi := lo + int32(cp) - 1; hi <= pl.tip {
+					rd.Calls[0] = Call{Height: lo, Batch: "fwd", Cap: cp, Boundary: "twin-low"}
+					rd.Calls[1] = Call{Height: hi, Batch: "rev", Cap: cp, Boundary: "twin-high"}
+				}
+			}
 			pl.settle(&rd, false)
 			p.Rounds = append(p.Rounds, rd)
 			pl.prev = append(pl.prev, rd.Calls...)
